@@ -43,3 +43,18 @@ func (pc *PeerConnection) VerifC21ConnectionStateLocked() bool {
 
 	return true
 }
+
+// VerifC21LockMu takes pc.mu, the mutex of close()'s entry critical section,
+// on behalf of the harness (as an API call in flight does); VerifC21UnlockMu
+// releases it. VerifC21RLockMu / VerifC21RUnlockMu do the same with the read
+// lock.
+func (pc *PeerConnection) VerifC21LockMu() { pc.mu.Lock() }
+
+// VerifC21UnlockMu releases the lock taken by VerifC21LockMu.
+func (pc *PeerConnection) VerifC21UnlockMu() { pc.mu.Unlock() }
+
+// VerifC21RLockMu takes pc.mu for reading.
+func (pc *PeerConnection) VerifC21RLockMu() { pc.mu.RLock() }
+
+// VerifC21RUnlockMu releases the lock taken by VerifC21RLockMu.
+func (pc *PeerConnection) VerifC21RUnlockMu() { pc.mu.RUnlock() }
